@@ -1,5 +1,51 @@
-(* C07/Props.v -- property theorems (stub, being filled). *)
-From Coq Require Import Reals List Bool.
-From Verif Require Import Base.Num Base.Vec Base.VecR C07.Model C07.Proofs.
+(* C07/Props.v -- property theorems only; each is closed by [exact] of a lemma from the
+   C07 development and followed by Print Assumptions.
+
+   Model (C07/Model.v, tied to /repo by the correspondence of harness/c07.py):
+     fexpr      functional expression trees: Leaf (default functional on the space with weights w),
+                LScal (s*f), RScal (f(s.)), SSum (f+c), Transl, QPert (quadratic perturbation /
+                Bregman distance), Sep (SeparableSum)
+     fval e x   the value f(x)  (option R, None = +infinity)       -- the _call methods
+     fprox e s x  f.proximal(s)(x)                                  -- the .proximal bindings + factories
+     fweights e   the weights w of the functional's own space: <x,y> = sum w_i x_i y_i
+   wf e: weights positive; LScal scalar > 0; RScal scalar <> 0; QPert coefficient >= 0; translation /
+   linear term of the right length; leaves among L1Norm, L2NormSquared, ConstantFunctional,
+   IndicatorBox/Nonnegativity, IndicatorZero, IndicatorLpUnitBall(inf), Huber(gamma >= 0).          *)
+From Coq Require Import Reals Lra List Bool.
+From Verif Require Import Base.Num Base.Vec Base.VecR C07.Model C07.Convex C07.Leaves C07.LeafThms C07.Rules C07.Proofs.
 Import ListNotations.
 Local Open Scope R_scope.
+
+(* T1 (the property, scalar step): for EVERY well-formed functional tree (any depth), every size,
+   every sigma > 0 and every x, f.proximal(sigma)(x) returns a point p with f(p) finite such that
+   no z gives a smaller value of f(z) + ||z-x||^2/(2 sigma), the norm being that of the tree's own
+   weighted space. *)
+Theorem prox_tree_minimises : forall (e : @fexpr R) (sigma : R) (x : list R),
+  wf e -> 0 < sigma -> length x = fdim e ->
+  exists p, fprox e (SScal sigma) x = Ok p /\
+    length p = fdim e /\ (exists v, fval e p = Some v) /\
+    forall z, length z = fdim e ->
+      ele (eadd (fval e p) (Some (wnormsq (fweights e) (vsub p x) / (2 * sigma))))
+          (eadd (fval e z) (Some (wnormsq (fweights e) (vsub z x) / (2 * sigma)))).
+Proof. exact fprox_optimal_scalar. Qed.
+Print Assumptions prox_tree_minimises.
+
+(* T1 (per-point and per-component steps): the same for every admissible step specification s
+   (sig_ok: scalar > 0 anywhere; a positive space element where the leaf documents it: L1, L2^2,
+   constant, box, {0}; a list of steps at a SeparableSum), with the step entering as the metric
+   (1/2) sum_i (w_i / sigma_i) (z_i - x_i)^2. *)
+Theorem prox_tree_minimises_general_step : forall (e : @fexpr R), wf e -> forall (s : @sig R) (x : list R),
+  sig_ok e s -> length x = fdim e ->
+  exists p, fprox e s x = Ok p /\
+    length p = fdim e /\ (exists v, fval e p = Some v) /\
+    forall z, length z = fdim e ->
+      ele (prox_obj (fval e) (metric (fweights e) (sig_flat e s)) x p)
+          (prox_obj (fval e) (metric (fweights e) (sig_flat e s)) x z).
+Proof. exact fprox_optimal_all. Qed.
+Print Assumptions prox_tree_minimises_general_step.
+
+(* non-vacuity: a weighted, translated, scaled, perturbed separable tree is well-formed *)
+Example wf_example :
+  wf (Sep (Transl [1; 2] (LScal 2 (Leaf FL1 [1; 3])))
+          (QPert (1/2) (Some [1]) 3 (RScal (-2) (Leaf (FHuber 1) [1/4])))).
+Proof. cbn; repeat split; try lra; repeat constructor; lra. Qed.
